@@ -55,7 +55,8 @@ class InterpolatedValue:
     def __init__(self, value):
         self.value = value
         self.is_sandboxed = is_sandbox_result(value)
-        if isinstance(value, Exception):
+        if isinstance(value, (Exception, SystemExit)):
+            # (student code that exits hands back its SystemExit)
             self.is_error = True
         # Sandboxes with exceptions become their exception
         elif isinstance(value, Sandbox) and value.exception:
